@@ -27,6 +27,7 @@ import Kust.Match
 import Kust.ReplTree
 import Kust.PathDisk
 import Kust.Kv
+import Kust.Subset
 import Kust.Gen.Lists
 import Kust.Gen.FieldSpecs
 import Kust.Gen.Lists
@@ -605,6 +606,16 @@ def runMatch (op : String) (a : Json) : Except String Json := do
       (Match.pathMatch (MatchJ.hit ns) ns create path doc)
   | _ => throw s!"unknown match op {op}"
 
+def runSubset (a : Json) : Except String Json := do
+  let cs := csOfJson (a.getObjValD "cs")
+  let ref ← idOfJson (a.getObjValD "referrer")
+  let m ← (jArr (a.getObjValD "m")).mapM idOfJson
+  let subjects : List Subset.Subject := (jArr (a.getObjValD "subjects")).map fun s =>
+    match jArr s with
+    | [k, n] => (k.getStr?.toOption.getD "", if n.isNull then none else some (n.getStr?.toOption.getD ""))
+    | _ => ("", none)
+  return Json.mkObj [("ok", Json.arr ((Subset.subset cs ref subjects m).map idToJson).toArray)]
+
 def runGenSources (a : Json) : Except String Json := do
   let envok := predOfJson (a.getObjValD "envok")
   let keyok := predOfJson (a.getObjValD "keyok")
@@ -654,6 +665,7 @@ def runRepl (op : String) (a : Json) : Except String Json := do
 def dispatch (comp : String) (args : Json) : Except String Json :=
   match comp.splitOn "." with
   | ["fns", op] => runFns op args
+  | ["resmap", "subset"] => runSubset args
   | ["res", op] => runRes op args
   | ["fmt", "nonstring"] => runFmtSchema args
   | ["fmt", op] => runFmt op args
